@@ -190,3 +190,28 @@ pub fn ty_name(v: &Value) -> &'static str {
         Value::None => "none",
     }
 }
+
+/// strings for the string built-ins (`uppercase`, `lowercase`, `trim`, `contains`): context-sensitive and multi-character
+/// case mappings, every White_Space character at either end and inside, look-alikes that are not white space
+pub fn string_probe_pool() -> Vec<Value> {
+    let mut v: Vec<String> = vec![];
+    for w in [
+        "", "a", "A", "abc XYZ", "ß", "ẞ", "ﬁ", "ﬃ", "ŉ", "ǰ", "ΐ", "İ", "ı", "I", "i̇", "ǅ", "ǆ", "Ǆ", "µ", "ſ", "K", "Å",
+        // final sigma: word-final, before punctuation, alone, non-final, after a combining mark
+        "Σ", "ΑΣ", "ΟΔΥΣΣΕΥΣ", "ΑΣ ΑΣ", "ΑΣ.", "ΑΣΑ", "Σ Σ", "aΣ", "ΑΣ\u{301}", "ΑΣ\u{301}Α", "ς", "σ",
+        "Ა", "ა", "Ꭰ", "ꭰ", "𐐀", "𐐨", "Ⅷ", "ⅷ", "Ⓐ", "ⓐ", "Ǵ", "ǵ", "ᾈ", "ᾀ", "ῼ", "ῳ", "ΰ", "և",
+        "日本語", "😀", "a\u{301}", "\u{1F1E9}\u{1F1EA}",
+    ] {
+        v.push(w.to_string());
+    }
+    let whites: Vec<char> = vec!['\t', '\n', '\u{b}', '\u{c}', '\r', ' ', '\u{85}', '\u{a0}', '\u{1680}', '\u{2000}', '\u{2001}', '\u{2002}', '\u{2003}', '\u{2004}', '\u{2005}', '\u{2006}', '\u{2007}', '\u{2008}', '\u{2009}', '\u{200a}', '\u{2028}', '\u{2029}', '\u{202f}', '\u{205f}', '\u{3000}'];
+    let lookalikes: Vec<char> = vec!['\u{200b}', '\u{feff}', '\u{180e}', '\u{2060}', '\u{1c}', '\u{1f}', '\u{0}', '\u{7f}'];
+    for c in whites.iter().chain(lookalikes.iter()) {
+        v.push(format!("{}x", c));
+        v.push(format!("x{}", c));
+        v.push(format!("{}x{}y{}", c, c, c));
+        v.push(format!("{}", c));
+    }
+    v.push(" \t\r\n a b \u{3000}\u{85}".to_string());
+    v.into_iter().map(Value::String).collect()
+}
